@@ -2329,7 +2329,7 @@ impl<'abbrev, R: Reader> EntriesRaw<'abbrev, R> {
     }
 
     #[inline]
-    fn empty(&mut self) {
+    pub(crate) fn empty(&mut self) {
         self.input.empty()
     }
 
